@@ -215,7 +215,9 @@ func (g *Gen) Muts(maxN int) []Mut {
 var LongKeys = [][]byte{bytes.Repeat([]byte("L"), 127), bytes.Repeat([]byte("L"), 128), append(bytes.Repeat([]byte("k"), 299), 0xff)}
 
 func (g *Gen) key() []byte {
-	if g.R.Chance(1, 14) {
+	// (not next to row-key patterns: the Model's matcher takes derivatives without simplifying them, which
+	// is fine for keys of a few bytes and explodes on a star-heavy pattern over three hundred)
+	if g.P.Filters == 0 && g.P.Cam == 0 && g.R.Chance(1, 14) {
 		return core.Pick(g.R, LongKeys)
 	}
 	return core.Pick(g.R, Keys)
